@@ -33,7 +33,10 @@ def mk_descs(rng, n, **kw):
         d = {'seed': rng.randrange(1 << 30), 'role': rng.choice(kw.get('roles', ['server', 'client'])),
              'lenreq': rng.random() < 0.5, 'hostile': kw.get('hostile', 0.0), 'with_close': kw.get('with_close', False),
              'steps': rng.randint(*kw.get('steps', (3, 14))), 'frag': kw.get('frag', 0.0),
-             'close_mode': kw.get('close_mode'), 'garbage': kw.get('garbage', 0.0)}
+             'close_mode': kw.get('close_mode'), 'garbage': kw.get('garbage', 0.0), 'race': kw.get('race', 0.0),
+             'on_close_raises': kw.get('on_close_raises', False)}
+        if callable(d['on_close_raises']):
+            d['on_close_raises'] = d['on_close_raises'](rng)
         if callable(d['close_mode']):
             d['close_mode'] = d['close_mode'](rng)
         if callable(d['with_close']):
@@ -45,7 +48,7 @@ def mk_descs(rng, n, **kw):
 def run_desc(d, post=None):
     sc = Scenario(random.Random(d['seed']), role=d['role'], lenreq=d['lenreq'], hostile=d['hostile'],
                   with_close=d['with_close'], steps=d['steps'], frag=d.get('frag', 0.0), close_mode=d.get('close_mode'),
-                  garbage=d.get('garbage', 0.0))
+                  garbage=d.get('garbage', 0.0), race=d.get('race', 0.0), on_close_raises=d.get('on_close_raises', False))
     sc.post = post
     sc.desc = d
     if post is None:
